@@ -112,16 +112,18 @@ def run(ck):
     stores = r.interp.module('ioos_qc.stores')
     PS = stores.globals['PandasStore']
     CR = r.interp.module('ioos_qc.results').globals['CollectedResult']
-    for combo in itertools.product([1, 3, 4], repeat=3):
+    # results of every package count alike (the roll-up is over *all* collected results, whichever module produced them)
+    for combo, pkgs in itertools.product(itertools.product([1, 3, 4], repeat=3),
+                                         (('qartod', 'qartod', 'qartod'), ('qartod', 'axds', 'argo'), ('axds', 'qartod', 'qartod'), ('axds', 'argo', 'axds'))):
         inst = Instance(PS)
         crs = []
         for i, v in enumerate(combo):
-            cr = r.interp.instantiate(CR, [], dict(stream_id=f's{i}', package='qartod', test=f't{i}', function=None, results=mkvec([v])), None)
+            cr = r.interp.instantiate(CR, [], dict(stream_id=f's{i}', package=pkgs[i], test=f't{i}', function=None, results=mkvec([v])), None)
             crs.append(cr)
         inst.attrs['collected_results'] = list(crs)
         meth = r.interp.getattr(inst, 'compute_aggregate', None)
         out = r.run(meth, [])
-        label = f'compute_aggregate({list(combo)})'
+        label = f'compute_aggregate({list(combo)} from packages {list(pkgs)})'
         cl = inst.attrs['collected_results']
         ok = out.kind == 'return' and len(cl) == len(crs) + 1 and all(a is b for a, b in zip(cl, crs))
         if ok:
